@@ -16,9 +16,12 @@ let () =
         let deps = Array.make (n + 1) [] and anti = Array.make (n + 1) [] in
         List.iteri (fun i s -> if i < n then deps.(i) <- ints s else if i < 2 * n then anti.(i - n) <- ints s) rest;
         let listing = ints (List.nth rest (2 * n)) in
+        (* optional last field: the backends of the core (module_is_backend); the run is ModBackend.run3 true *)
+        let bks = if List.length rest > 2 * n + 1 then List.map int_of_nat (ints (List.nth rest (2 * n + 1))) else [] in
         let g m = let i = int_of_nat m in if i < n then deps.(i) else [] in
         let a m = let i = int_of_nat m in if i < n then anti.(i) else [] in
-        (match run2 true (nat_of_int n) g a listing with
+        let bk m = List.mem (int_of_nat m) bks in
+        (match run3 true (nat_of_int n) g a bk listing with
          | None -> Printf.printf "ABORT\n"
          | Some lg -> Printf.printf "%s\n" (String.concat " " (List.map ev lg)))
     | ns :: rest ->
